@@ -224,7 +224,11 @@ func Drive(ch *Check, tier string, seed int64, root string, workers int, self st
 			defer wg.Done()
 			of := filepath.Join(tmp, fmt.Sprintf("shard-%d.json", i))
 			cmd := exec.Command(self, "worker", ch.ID, tier, strconv.Itoa(i), strconv.Itoa(workers), of)
-			cmd.Env = append(os.Environ(), "GOMAXPROCS=1", "VERIF_SEED="+strconv.FormatInt(seed, 10))
+			gmp := "GOMAXPROCS=1"
+			if os.Getenv("VERIF_FREE") != "" {
+				gmp = "GOMAXPROCS=4" // free-running pass: real parallelism for the race detector
+			}
+			cmd.Env = append(os.Environ(), gmp, "VERIF_SEED="+strconv.FormatInt(seed, 10))
 			cmd.Stderr = os.Stderr
 			var sb strings.Builder
 			cmd.Stdout = &sb
